@@ -43,7 +43,68 @@ func fullLeaves() []*T {
 	for _, s := range []string{"é", "中", "\xf0\x9f\x98\x80", " ", `a"b`, `a\b`, "</tag>", "a\nb", `é`, "a/b", "1", "1.5", "01", " a ", "null", "N;", `";`, `s:1:"x";`, "a\";i:1;s:1:\"b", string([]byte{letter('h'), letter('i')})} {
 		l = append(l, tStr(s))
 	}
+	// every literal of the codec sources, alone and followed by each payload (dict.go)
+	for _, s := range markerStrings() {
+		l = append(l, tStr(s))
+	}
 	return l
+}
+
+// mixedPatterns: every slot pattern of n slots over {positional, named a, named b, named "é",
+// named "7" (sparse integer key)} that has at least one positional and one named slot and pairwise
+// distinct keys. "" stands for a positional slot.
+func mixedPatterns(n int, names []string) [][]string {
+	opts := append([]string{""}, names...)
+	var out [][]string
+	idx := make([]int, n)
+	for {
+		keys := make([]string, n)
+		pos, named := 0, 0
+		for i, o := range idx {
+			keys[i] = opts[o]
+			if o == 0 {
+				pos++
+			} else {
+				named++
+			}
+		}
+		if pos > 0 && named > 0 && (&T{K: 'x', Keys: keys, C: make([]*T, 0)}).keysDistinct() {
+			out = append(out, keys)
+		}
+		i := 0
+		for ; i < n; i++ {
+			idx[i]++
+			if idx[i] < len(opts) {
+				break
+			}
+			idx[i] = 0
+		}
+		if i == n {
+			return out
+		}
+	}
+}
+
+func mixedNames() []string {
+	return []string{string([]byte{letter('a')}), string([]byte{letter('b')}), "é", "7"}
+}
+
+// mixedOver: every mixed array of 2..maxSlots slots over the pool.
+func mixedOver(poolT []*T, maxSlots int, names []string) []*T {
+	var out []*T
+	for n := 2; n <= maxSlots; n++ {
+		for _, kv := range mixedPatterns(n, names) {
+			slots := make([][]*T, n)
+			for i := range slots {
+				slots[i] = poolT
+			}
+			f := &fam{Kind: 'x', Keys: kv, Slots: slots}
+			for i := int64(0); i < f.n(); i++ {
+				out = append(out, f.tree(i))
+			}
+		}
+	}
+	return out
 }
 
 func reducedLeaves() []*T {
@@ -162,6 +223,31 @@ func valueFamilies(quick bool) []*fam {
 	add("d1 one child, every key", [][]*T{red}, keyVariants)
 	add("d1 two children", [][]*T{red, red}, keyVariants)
 	add("d1 three children", [][]*T{tiny, tiny, tiny}, keyVariants)
+	// mixed arrays (positional and named slots in one ArrayValue: what element assignment on a
+	// list, or a push on a keyed array, builds -- no literal has this shape)
+	addX := func(name string, pools [][]*T, names []string) {
+		for _, kv := range mixedPatterns(len(pools), names) {
+			fs = append(fs, &fam{Name: name, Kind: 'x', Keys: kv, Slots: pools})
+		}
+	}
+	one := []*T{tInt(1)}
+	addX("d1 mixed array, two slots, every leaf", [][]*T{full, one}, mixedNames())
+	addX("d1 mixed array, two slots, every leaf", [][]*T{one, full}, mixedNames())
+	addX("d1 mixed array, two slots", [][]*T{red, red}, mixedNames())
+	addX("d1 mixed array, three slots", [][]*T{tiny, tiny, tiny}, mixedNames())
+	if !quick {
+		addX("d1 mixed array, four slots", [][]*T{tiny[:3], tiny[:3], tiny[:3], tiny[:3]}, mixedNames())
+	}
+	// depth 2 with mixed arrays: a mixed array inside every container kind, and containers of every
+	// kind inside a mixed array
+	xs := mixedOver(tiny[:3], 2, mixedNames()[:2])
+	xkids := append(append(append([]*T{}, tiny[:3]...), xs...), containersOver(tiny[:2], 1, false)...)
+	add("d2 one child: a mixed array", [][]*T{mixedOver(tiny[:3], 3, mixedNames())}, first(2))
+	add("d2 two children incl. mixed arrays", [][]*T{xkids, xkids}, first(2))
+	addX("d2 mixed array of containers", [][]*T{xkids, xkids}, mixedNames()[:2])
+	if !quick {
+		addX("d2 mixed array of containers, three slots", [][]*T{xkids, xkids, xkids}, mixedNames()[:2])
+	}
 	// depth 2: children are leaves or depth-1 containers
 	d1small := append(append([]*T{}, tiny...), containersOver(tiny[:4], 2, false)...)
 	d1all := append(append([]*T{}, red...), containersOver(red, 1, true)...)
@@ -529,6 +615,19 @@ func bindTrees() []*T {
 		out = append(out, tList(l), tMap('m', []string{a}, []*T{l}), tMap('k', []string{a}, []*T{l}))
 	}
 	out = append(out, containersOver(tinyLeaves()[:3], 2, true)...)
+	// mixed arrays: every leaf in a positional and in a named slot, every slot pattern up to three
+	// slots, and one level of nesting in each direction
+	b := string([]byte{letter('b')})
+	for _, l := range full {
+		out = append(out, tMap('x', []string{"", a}, []*T{tInt(1), l}), tMap('x', []string{a, ""}, []*T{tInt(1), l}),
+			tMap('x', []string{"", a}, []*T{l, tInt(1)}), tMap('x', []string{a, ""}, []*T{l, tInt(1)}))
+	}
+	xs := mixedOver(tinyLeaves()[:2], 3, mixedNames())
+	out = append(out, xs...)
+	for _, x := range mixedOver(tinyLeaves()[:1], 3, mixedNames()[:2]) {
+		out = append(out, tList(x), tList(tInt(1), x), tMap('m', []string{a}, []*T{x}), tMap('k', []string{a}, []*T{x}),
+			tMap('x', []string{"", b}, []*T{x, x}), tMap('x', []string{b, ""}, []*T{tList(tInt(1)), x}))
+	}
 	return out
 }
 
